@@ -248,11 +248,19 @@ func run(id string, cfg propCfg, tier string, seed uint64, replay, scratch strin
 			cmd := exec.Command(bin, "-test.run", "^TestWorker$", "-test.timeout", "12h")
 			cmd.Dir = scratch
 			cmd.Env = workerEnv("VERIF_PROP="+id, "VERIF_TIER="+tier, fmt.Sprintf("VERIF_SEED=%d", seed), fmt.Sprintf("VERIF_WORKER=%d", w), fmt.Sprintf("VERIF_NWORKERS=%d", nw), fmt.Sprintf("VERIF_BUDGET_S=%d", budget), "VERIF_OUT="+outPath, "VERIF_KNOWN="+known, "VERIF_MODE=explore")
+			if cfg.Race {
+				rl := filepath.Join(scratch, fmt.Sprintf("race-%d", w))
+				cmd.Env = append(cmd.Env, "GORACE=halt_on_error=0 log_path="+rl, "VERIF_RACELOG="+rl)
+			}
 			b, err := cmd.CombinedOutput()
 			logs[w] = string(b)
 			if err != nil {
-				errs[w] = err
-				return
+				// a -race test binary exits 1 when the detector reported anything (harness memory included):
+				// the worker's own output file is what counts
+				if ee, ok := err.(*exec.ExitError); !(cfg.Race && ok && ee.ExitCode() == 1 && fileExists(outPath)) {
+					errs[w] = err
+					return
+				}
 			}
 			data, err := os.ReadFile(outPath)
 			if err != nil {
@@ -417,11 +425,24 @@ func doReplay(bin, id, path string, verbose bool) int {
 	if verbose {
 		env = append(env, "VERIF_TRACE=1")
 	}
+	race := props[id].Race
+	if race {
+		rl := path + ".race"
+		env = append(env, "GORACE=halt_on_error=0 log_path="+rl, "VERIF_RACELOG="+rl)
+		defer func() {
+			m, _ := filepath.Glob(rl + ".*")
+			for _, f := range m {
+				os.Remove(f)
+			}
+		}()
+	}
 	cmd.Env = workerEnv(env...)
 	b, err := cmd.CombinedOutput()
 	if err != nil {
-		fmt.Fprintf(os.Stderr, "replay process failed: %v\n%s\n", err, tail(string(b), 3000))
-		return 2
+		if ee, ok := err.(*exec.ExitError); !(race && ok && ee.ExitCode() == 1 && fileExists(out)) {
+			fmt.Fprintf(os.Stderr, "replay process failed: %v\n%s\n", err, tail(string(b), 3000))
+			return 2
+		}
 	}
 	data, err := os.ReadFile(out)
 	if err != nil {
